@@ -4,6 +4,7 @@ pub mod dump;
 pub mod engine;
 pub mod fuzzing;
 pub mod hist;
+pub mod holddir;
 pub mod known;
 pub mod props;
 pub mod qmodel;
